@@ -2,19 +2,39 @@
 import json
 import common, orch_env, orch_e2e, c04
 
-TRANSLATORS = []
+TRANSLATORS = c04.TRANSLATORS
 TRUSTED = c04.TRUSTED + ['log content is recognised by the probe\'s "output of <name>" line; mail = invocations of the sendmail stand-in; the lock is sampled after every completion']
 
 
 def run(ctx, n=None):
     res = common.Result()
-    res.rule = c04.RULE + '; accounting oracle: records, logs, hook calls, lock during/after, second invocation, report and mail'
+    res.rule = c04.RULE + '; accounting oracle: records, logs, hook calls (sequence compared with the model), lock during/after, second invocation, report and mail; plus lock_acquire / lock_release alone on related names'
     n = n or ctx.budget(150, 2500)
-    cases = c04.load_corpus('C11') + [orch_e2e.gen_case(ctx.rng) for _ in range(n)]
+    corpus = c04.load_corpus('C11')
+    cases = [c for c in corpus if 'steps' in c] + [orch_e2e.gen_case(ctx.rng) for _ in range(n)]
     res.samples = cases[:2]
     c04.evaluate(ctx, cases, res, True)
+    lock_lane(ctx, res, [c for c in corpus if 'lock_unit' in c] + [orch_e2e.gen_lock_case(ctx.rng) for _ in range(ctx.budget(80, 1500))])
     res.traces_validated = res.evaluations
     return res
+
+
+def lock_lane(ctx, res, cases):
+    """util.sh lock_acquire / lock_release alone against Orch/RunLock.v (the model the C11 lock theorems are about),
+    on lock contents and build directory names that are equal, unrelated, or prefix / suffix / infix of each other"""
+    impl = ctx.build_impl()
+    drv = ctx.build_driver('or', withz=True)
+    for case in cases:
+        m, im = orch_e2e.run_lock_case(ctx, impl, drv, case)
+        c = case['lock_unit']
+        res.evaluations += 1
+        res.count('lock %s %s' % (c['op'], c['kind']))
+        if c['kind'] in ('prefix', 'longer', 'suffix', 'infix'):
+            res.nontrivial.add('lock:%s:%s:%s' % (c['op'], c['lock'], c['b']))
+        if m != im:
+            res.oracle_failures.append({'case': case, 'signature': 'lock-ownership-test',
+                                        'what': '%s on .running=%r by %r: specified "%s" (ok, lock afterwards), util.sh did "%s"' % (
+                                            'lock_acquire' if c['op'] == 'acq' else 'lock_release', c['lock'], c['b'], m, im)})
 
 
 def extended_search(ctx, res, proof):
@@ -24,6 +44,9 @@ def extended_search(ctx, res, proof):
 def replay(ctx, rep):
     case = rep.get('case') or (rep.get('first_disagreements') or [{}])[0].get('case')
     res = common.Result()
-    c04.evaluate(ctx, [case], res, True)
+    if 'lock_unit' in case:
+        lock_lane(ctx, res, [case])
+    else:
+        c04.evaluate(ctx, [case], res, True)
     print(json.dumps(case)); print(res.disagreements); print(res.oracle_failures)
     return 1 if (res.disagreements or res.oracle_failures) else 0
